@@ -869,6 +869,7 @@ func runC06(cfg Config) {
 	c06RealBackends(cfg, rep, rng, monitor)
 	runRemoteStoresWrite(cfg, rep, rng)
 	runGCSWrite(cfg, rep, rng)
+	c06LargeChunks(cfg, rep, rng)
 	c06CLI(cfg, rep, rng, monitor)
 	cmdflowCLI(cfg, rep, rng, "C06")
 	rep.Write(cfg.Out)
